@@ -10,8 +10,9 @@ from concurrent.futures import ThreadPoolExecutor
 
 VERIF = os.path.dirname(os.path.dirname(os.path.abspath(__file__)))
 REPO = os.environ.get("VERIF_REPO", "/repo")
-EVIDENCE_DIR = os.path.join(VERIF, "evidence")
-REPLAY_DIR = os.path.join(VERIF, "replays")
+# VERIF_OUT redirects evidence and replay files (used only by the seed matrix, which runs against a scratch worktree)
+EVIDENCE_DIR = os.path.join(os.environ.get("VERIF_OUT", VERIF), "evidence")
+REPLAY_DIR = os.path.join(os.environ.get("VERIF_OUT", VERIF), "replays")
 KNOWN = os.path.join(VERIF, "known_findings.json")
 
 DISCHARGED, FAILED, UNDECIDED = "discharged", "failed", "undecided"
